@@ -590,6 +590,8 @@ namespace
     IT_CFG(bitset_u8, BitsetKind<uint8_t, false>);
     IT_CFG(bitset_u64_const, BitsetKind<uint64_t, true>);
     IT_CFG(bitset_u32, BitsetKind<uint32_t, false>);
+    IT_CFG(bitset_signed_char_blocks, BitsetKind<signed char, false>);       // signed block types: one value bit less than bits
+    IT_CFG(bitset_long_long_blocks_const, BitsetKind<long long, true>);
     IT_CFG(optional_vector, OptKind<OV, 0>);
     IT_CFG(optional_vector_const, OptKind<OV, 1>);
     IT_CFG(optional_vector_reverse, OptKind<OV, 2>);
